@@ -10,10 +10,12 @@ package c08
 import (
 	"fmt"
 	"math"
+	"strings"
 	"testing"
 
 	"verifharness/vh"
 
+	"github.com/projecteru2/core/resource/plugins"
 	plugintypes "github.com/projecteru2/core/resource/plugins/types"
 	resourcetypes "github.com/projecteru2/core/resource/types"
 )
@@ -44,7 +46,7 @@ func TestC07(t *testing.T) {
 	g := gen{r}
 	w := newWorld(t, 100, -1)
 
-	emit := func(kind string, specs []nodeSpec, prior int, opts resourcetypes.RawParams, reqKind string) {
+	emit := func(kind string, specs []nodeSpec, prior int, fill int, opts resourcetypes.RawParams, reqKind string) {
 		names := []string{}
 		for _, s := range specs {
 			n := w.addNode(s)
@@ -55,6 +57,45 @@ func TestC07(t *testing.T) {
 				w.mgr.Alloc(w.ctx, n, 1+g.intn(2), resourcetypes.Resources{pluginName: o}) //nolint
 			}
 		}
+		// boundary states: fill a node's memory exactly (free memory 0), or over-commit it
+		fillKind := "none"
+		if fill > 0 {
+			n0 := names[g.intn(len(names))]
+			capacity, usage, _ := w.read(n0, nil)
+			free := capacity.Memory - usage.Memory
+			if free > 0 {
+				full := resourcetypes.RawParams{"memory-request": free, "memory-limit": free}
+				ws, _, err := w.mgr.Alloc(w.ctx, n0, 1, resourcetypes.Resources{pluginName: full})
+				if err == nil {
+					fillKind = "exact"
+					if fill > 1 { // memory is not validated: a duplicate commit over-commits it
+						if _, _, err := w.mgr.SetNodeResourceUsage(w.ctx, n0, nil, nil, ws, true, plugins.Incr); err == nil {
+							fillKind = "overcommitted"
+						}
+					}
+				}
+			}
+		}
+		if opts == nil { // boundary-aware request, relative to the first node
+			capacity, usage, _ := w.read(names[0], nil)
+			cores := float64(len(capacity.CPUMap))
+			free := capacity.Memory - usage.Memory
+			cpu := []float64{cores, cores + 0.5, cores + 1, cores - 0.5, cores + 0.000000001, 0}[g.intn(6)]
+			mem := []int64{0, free, free + 1, free / 2, free/2 + 1, free / 3, 1}[g.intn(7)]
+			if mem < 0 {
+				mem = 0
+			}
+			if g.chance(0.25) {
+				opts, reqKind = resourcetypes.RawParams{"cpu-bind": true, "cpu-request": cpu, "cpu-limit": cpu, "memory-request": mem, "memory-limit": mem}, "bound"
+			} else {
+				opts, reqKind = resourcetypes.RawParams{"cpu-request": cpu, "cpu-limit": cpu, "memory-request": mem, "memory-limit": mem}, "memory"
+				if mem == 0 {
+					reqKind = "unlimited"
+				}
+			}
+			reqKind += "-boundary"
+		}
+		r.Count("fill=" + fillKind)
 		req := resourcetypes.Resources{pluginName: opts}
 		res, total, err := w.mgr.GetNodesDeployCapacity(w.ctx, names, req)
 		if err != nil {
@@ -99,7 +140,7 @@ func TestC07(t *testing.T) {
 			}
 			// memory-only: really commit k and read the capacity again
 			after := []string{}
-			if reqKind != "bound" && c >= 1 {
+			if !strings.HasPrefix(reqKind, "bound") && c >= 1 {
 				k := 1 + g.intn(3)
 				if k > c {
 					k = c
@@ -139,11 +180,20 @@ func TestC07(t *testing.T) {
 	numa2 := nodeSpec{cores: 4, share: 100, memory: 4000, numa: [][]string{{"0", "2"}, {"1", "3"}}, numaMem: []int64{2000, 2000}, describe: "numa2"}
 	small := nodeSpec{cores: 1, share: 100, memory: 1000, describe: "plain"}
 	// corpus: unlimited + finite (the saturating total), zero capacity, bound with/without NUMA
-	emit("corpus", []nodeSpec{plain, small}, 0, resourcetypes.RawParams{"cpu-request": 0.5, "cpu-limit": 0.5}, "unlimited")
-	emit("corpus", []nodeSpec{plain, small, numa2}, 1, resourcetypes.RawParams{"memory-request": int64(300), "memory-limit": int64(300)}, "memory")
-	emit("corpus", []nodeSpec{small, plain}, 0, resourcetypes.RawParams{"cpu-request": 2.0, "cpu-limit": 2.0, "memory-request": int64(100), "memory-limit": int64(100)}, "memory")
-	emit("corpus", []nodeSpec{plain, numa2}, 1, resourcetypes.RawParams{"cpu-bind": true, "cpu-request": 1.0, "cpu-limit": 1.0, "memory-request": int64(500), "memory-limit": int64(500)}, "bound")
-	emit("corpus", []nodeSpec{small}, 0, resourcetypes.RawParams{"cpu-bind": true, "cpu-request": 2.0, "cpu-limit": 2.0}, "bound")
+	emit("corpus", []nodeSpec{plain, small}, 0, 0, resourcetypes.RawParams{"cpu-request": 0.5, "cpu-limit": 0.5}, "unlimited")
+	emit("corpus", []nodeSpec{plain, small, numa2}, 1, 0, resourcetypes.RawParams{"memory-request": int64(300), "memory-limit": int64(300)}, "memory")
+	emit("corpus", []nodeSpec{small, plain}, 0, 0, resourcetypes.RawParams{"cpu-request": 2.0, "cpu-limit": 2.0, "memory-request": int64(100), "memory-limit": int64(100)}, "memory")
+	emit("corpus", []nodeSpec{plain, numa2}, 1, 0, resourcetypes.RawParams{"cpu-bind": true, "cpu-request": 1.0, "cpu-limit": 1.0, "memory-request": int64(500), "memory-limit": int64(500)}, "bound")
+	emit("corpus", []nodeSpec{small}, 0, 0, resourcetypes.RawParams{"cpu-bind": true, "cpu-request": 2.0, "cpu-limit": 2.0}, "bound")
+
+	// boundaries: a fractional cpu request just above the core count (memory-only and unlimited);
+	// a node whose memory is exactly used up / over-committed asked for an unlimited request
+	emit("corpus", []nodeSpec{plain}, 0, 0, resourcetypes.RawParams{"cpu-request": 4.5, "cpu-limit": 4.5, "memory-request": int64(100), "memory-limit": int64(100)}, "memory")
+	emit("corpus", []nodeSpec{plain}, 0, 0, resourcetypes.RawParams{"cpu-request": 4.5, "cpu-limit": 4.5}, "unlimited")
+	emit("corpus", []nodeSpec{plain}, 0, 0, resourcetypes.RawParams{"cpu-request": 4.0, "cpu-limit": 4.0, "memory-request": int64(100), "memory-limit": int64(100)}, "memory")
+	emit("corpus", []nodeSpec{plain}, 1, 1, resourcetypes.RawParams{"cpu-request": 0.5, "cpu-limit": 0.5}, "unlimited")
+	emit("corpus", []nodeSpec{plain, small}, 1, 2, resourcetypes.RawParams{"cpu-request": 0.5, "cpu-limit": 0.5}, "unlimited")
+	emit("corpus", []nodeSpec{plain}, 0, 1, resourcetypes.RawParams{"memory-request": int64(1), "memory-limit": int64(1)}, "memory")
 
 	n := r.N(110, 4000)
 	for i := 0; i < n; i++ {
@@ -151,8 +201,16 @@ func TestC07(t *testing.T) {
 		for k := 1 + g.intn(3); k > 0; k-- {
 			specs = append(specs, g.nodeSpec(100, g.chance(0.6)))
 		}
-		opts, kind := g.capRequest()
-		emit("random", specs, g.intn(4), opts, kind)
+		fill := 0
+		if g.chance(0.25) {
+			fill = 1 + g.intn(2)
+		}
+		if g.chance(0.35) {
+			emit("random", specs, g.intn(4), fill, nil, "")
+		} else {
+			opts, kind := g.capRequest()
+			emit("random", specs, g.intn(4), fill, opts, kind)
+		}
 	}
 	r.Finish("1-3 nodes (1-8 cores, whole or odd shares, 0/2/3 NUMA nodes) with 0-3 prior allocations each; request bound (cpu 0.25-9, memory 0-3000) or memory-only (memory 0 = unlimited, 1-100000; cpu up to more than the node has); Manager.Alloc probed with capacity-1, capacity, capacity+1 and 1 (each accepted probe rolled back); for memory-only requests k<=3 instances are committed and the capacity re-read. non-trivial = at least one node offered")
 }
